@@ -494,6 +494,14 @@ func (w *world) exec(line string) string {
 			var wg sync.WaitGroup
 			var rerr error
 			finished, held := false, false
+			// every answer is searched for a receiver's webhook URL: a secret, `<secret>` in every rendering of the configuration
+			var leaked atomic.Bool
+			extra, iter := 0, 0
+			statusGet := func() {
+				if _, body, err := w.get("/api/v2/status"); err == nil && bytes.Contains(body, []byte("/hook/")) {
+					leaked.Store(true)
+				}
+			}
 			// feed: once the reloader has the FIFO open for reading, write the text (after `hold`, if given)
 			feed := func(hold func()) {
 				fd, err := syscall.Open(fifo, syscall.O_WRONLY|syscall.O_NONBLOCK, 0)
@@ -518,12 +526,18 @@ func (w *world) exec(line string) string {
 						held = true
 						for i := 0; i < hammerRequests; i++ {
 							wg.Add(1)
-							go func() { defer wg.Done(); _, _, _ = w.get("/api/v2/status") }()
+							go func() { defer wg.Done(); statusGet() }()
 						}
 						time.Sleep(hammerLead)
 					})
 				} else {
 					feed(nil) // the file is read once per template set (text, html): serve every further read at once
+					// keep a status request in flight for as long as the reload is at work (bounded)
+					if iter++; iter%15 == 0 && extra < 400 {
+						extra++
+						wg.Add(1)
+						go func() { defer wg.Done(); statusGet() }()
+					}
 				}
 				if !held {
 					time.Sleep(500 * time.Microsecond)
@@ -544,6 +558,9 @@ func (w *world) exec(line string) string {
 			_ = os.Remove(fifo)
 			if rerr != nil {
 				return "err:" + w.stage(rerr.Error())
+			}
+			if leaked.Load() {
+				return "ok-leak"
 			}
 			return "ok"
 		}
